@@ -46,9 +46,20 @@ static const char *dname(int d) {
 	return s;
 }
 /* route cases: index -> (debug, type, variant).  variants: 0 = all-zero payload; for content-dependent types a sweep */
-static long route_count(void) { return 2L * (256 + 256 /*boost*/ + 2 * 256 /*acc state+notify exec byte*/ + 3 /*drive event*/); }
+/* messages at exactly their minimal length (message definitions): they are complete and have to reach their destination */
+static const struct { uint8_t type, dlen, d0; } MINLEN[] = {
+	{MSG_SYS_ERROR, 1, 0x00}, {MSG_SYS_ERROR, 1, 0x16}, {MSG_SYS_ERROR, 1, 0x21}, {MSG_SYS_ERROR, 1, 0x30},      /* error codes without parameter */
+	{MSG_SYS_ERROR, 2, 0x02}, {MSG_SYS_ERROR, 2, 0x03}, {MSG_SYS_ERROR, 2, 0x04}, {MSG_SYS_ERROR, 2, 0x05}, {MSG_SYS_ERROR, 2, 0x10}, {MSG_SYS_ERROR, 2, 0x13}, {MSG_SYS_ERROR, 2, 0x20},
+	{MSG_NODE_NA, 1, 0x05}, {MSG_FEATURE_NA, 1, 0x07}, {MSG_LC_NA, 2, 0x00},
+	{MSG_SYS_PONG, 1, 0x11}, {MSG_SYS_MAGIC, 2, 0xFE}, {MSG_SYS_P_VERSION, 2, 7}, {MSG_SYS_SW_VERSION, 3, 1}, {MSG_SYS_UNIQUE_ID, 7, 0x40}, {MSG_SYS_IDENTIFY_STATE, 1, 1},
+	{MSG_NODETAB_COUNT, 1, 2}, {MSG_FEATURE, 2, 3}, {MSG_FEATURE_COUNT, 1, 2}, {MSG_VENDOR_ACK, 1, 1}, {MSG_STRING, 3, 0},
+};
+#define N_MINLEN ((long) (sizeof MINLEN / sizeof MINLEN[0]))
+static int g_dlen;
+static long route_count(void) { return 2L * (256 + 256 /*boost*/ + 2 * 256 /*acc state+notify exec byte*/ + 3 /*drive event*/ + N_MINLEN); }
 static void route_case(long idx, int *debug, uint8_t *type, uint8_t data[10]) {
-	long per = route_count() / 2; *debug = (int) (idx / per); idx %= per; memset(data, 0, 10);
+	long per = route_count() / 2; *debug = (int) (idx / per); idx %= per; memset(data, 0, 10); g_dlen = 9;
+	if (idx >= per - N_MINLEN) { long k = idx - (per - N_MINLEN); *type = MINLEN[k].type; g_dlen = MINLEN[k].dlen; data[0] = MINLEN[k].d0; if (*type == MSG_SYS_MAGIC) data[1] = 0xAF; return; }
 	if (idx < 256) { *type = (uint8_t) idx; if (*type == MSG_VENDOR) { data[0] = 1; data[1] = 'x'; data[2] = 1; data[3] = '0'; } return; }
 	idx -= 256;
 	if (idx < 256) { *type = MSG_BOOST_STAT; data[0] = (uint8_t) idx; return; }
@@ -72,15 +83,15 @@ static void route_child(const void *job, size_t n) {
 	for (uint32_t c = start; c < start + count && (long) c < route_count(); c++) {
 		int debug; uint8_t type, data[10]; route_case(c, &debug, &type, data);
 		bidib_set_lowlevel_debug_mode(debug ? true : false);
-		uint8_t m[32]; int ml = rc_build_msg(m, SRC, 0, type, data, 9);
+		uint8_t m[32]; int ml = rc_build_msg(m, SRC, 0, type, data, g_dlen);
 		char before[4096]; size_t bl = hx_dump_tx(before, sizeof before); (void) bl;
-		hx_feed_msg(SRC, 0, type, data, 9);
+		hx_feed_msg(SRC, 0, type, data, g_dlen);
 		if (type == MSG_ACCESSORY_NOTIFY && !debug) bidib_flush();
 		hx_emit_san_events("route");
 		int s1, s2, s3; int nm = drain_count(bidib_read_message, m, ml, &s1), ne = drain_count(bidib_read_error_message, m, ml, &s2), ni = drain_count(bidib_read_intern_message, m, ml, &s3);
 		int got = (nm ? D_MSG : 0) | (ne ? D_ERR : 0) | (ni ? D_INT : 0); if (!got) got = D_NONE;
 		int exp = expected_dest(type, data, debug);
-		char what[160]; snprintf(what, sizeof what, "mode=%s type=%02x data=%s", debug ? "debug" : "normal", type, hx_hex(data, 9));
+		char what[160]; snprintf(what, sizeof what, "mode=%s type=%02x data=%s", debug ? "debug" : "normal", type, hx_hex(data, (size_t) g_dlen));
 		if (nm + ne + ni > 1) res_violation("routed-more-than-once: a received message appears in several places", "%s: message-queue %d, error-queue %d, internal-queue %d", what, nm, ne, ni);
 		else if (!(got & exp)) {
 			char cls[200]; snprintf(cls, sizeof cls, "wrong-destination type=%02x%s expected=%s got=%s", type, debug ? " (debug mode)" : "", dname(exp), dname(got));
